@@ -1357,7 +1357,12 @@ func runHist(seed uint64, idx, n int, params *Params, ops []Op, cnt *Counters) r
 			op = ops[i]
 		} else {
 			op = g.genOp(prev)
+			// a bid by the empty address is a keeper-level call only: no transaction can carry it
+			// (ValidateBasic refuses an empty bidder; model: msg_place_bid ... (nobody e) = Err)
 			op.Msg = op.Kind == "bid" && (idx+i)%2 == 1
+		}
+		if op.A == iNobody {
+			op.Msg = false
 		}
 		parts := w.oracleParts(prev, op)
 		cls, err := w.exec(op)
